@@ -84,7 +84,17 @@ func (ex *Exec) bigAbs(x *Term) *Term {
 func (ex *Exec) bigEuclid(x, y *Term) (q, m *Term) {
 	ts := ex.ts
 	if ex.intMode {
-		return ts.IntBin("div", x, y), ts.IntBin("mod", x, y)
+		if x.Const || y.Const {
+			return ts.IntBin("div", x, y), ts.IntBin("mod", x, y)
+		}
+		tq, tr := ex.divWitness(x, y)
+		zero := ts.IntConst64(0)
+		one := ts.IntConst64(1)
+		neg := ts.IntCmp("<", tr, zero)
+		ypos := ts.IntCmp(">", y, zero)
+		q = ts.Ite(neg, ts.Ite(ypos, ts.IntBin("-", tq, one), ts.IntBin("+", tq, one)), tq)
+		m = ts.Ite(neg, ts.Ite(ypos, ts.IntBin("+", tr, y), ts.IntBin("-", tr, y)), tr)
+		return
 	}
 	tq := ts.BVBin("bvsdiv", x, y)
 	tr := ts.BVBin("bvsrem", x, y)
